@@ -229,3 +229,8 @@ fn c08_bucket_fine_hi4_questionable_fresh() {
 fn c08_bucket_fine_lo4_good_repeat1() {
     step(0, 4, 1, 1, false);
 }
+
+/// Used by the table harnesses to fill a bucket (private field access lives here).
+pub(crate) fn set_slot(b: &mut Bucket, j: usize, n: Node) {
+    b.nodes[j] = n;
+}
